@@ -582,7 +582,8 @@ fn dirvalue_ref_value(v: &DirValue) -> String {
     match v {
         DirValue::Absent => "undefined".into(),
         DirValue::Expr(e) => e.reference(),
-        DirValue::Str(s) => js_str(s),
+        // a string attribute value is white-space-normalised like any other attribute string
+        DirValue::Str(s) => js_str(&clean_text(s)),
         DirValue::Array { value, .. } => value.reference(),
     }
 }
